@@ -430,6 +430,10 @@ func checkC03(c *Ctx, r *Report, tier string) {
 	startNodeRule(c, r, "C03.R6")
 	r.Rule("C03.R7", "local compaction keeps the snapshot's anchor entry: the log is swept up to, not including, the snapshot index, and the sweep collects keys only while index < bound (the anchor is written in the same batch and a later Delete of the same key wins)", 2)
 	walCompactionKeepsAnchor(c, r, "C03.R7")
+	r.Rule("C03.R8", "nothing durable is dropped on the way: every part of a Ready (hard state, entries, snapshot) is handed to its writer on every path to Flush; the hard state is skipped only when empty; a graceful shutdown never deletes a group's log", 5)
+	persistConsumesAllParts(c, r, "C03.R8")
+	hardStateAlwaysWritten(c, r, "C03.R8")
+	logDeletionNotOnShutdown(c, r, "C03.R8")
 }
 
 func c03R2(c *Ctx, r *Report, ro *roles) {
@@ -914,6 +918,10 @@ func checkC05(c *Ctx, r *Report, tier string) {
 	startNodeRule(c, r, "C05.R5")
 	r.Rule("C05.R8", "the log store never tells raft about entries it does not have: every path from an entry write to a successful return updates (or discards) the cached last index", 1)
 	walCacheFollowsWrites(c, r, "C05.R8")
+	r.Rule("C05.R9", "after a restart raft finds what it persisted: the hard state is written whenever it is not empty, all parts of a Ready reach their writer, compaction keeps the snapshot's anchor entry", 6)
+	hardStateAlwaysWritten(c, r, "C05.R9")
+	persistConsumesAllParts(c, r, "C05.R9")
+	walCompactionKeepsAnchor(c, r, "C05.R9")
 	// R7: Step error propagation
 	for _, f := range c.FuncsInPkg("storage/raft") {
 		if !c.isProd(f) {
